@@ -63,6 +63,8 @@ func main() {
 		err = h.RunC17(*cases, *trace, *stats, *seed)
 	case "c18":
 		err = h.RunC18(*cases, *trace, *stats, *seed)
+	case "c10sm":
+		err = h.RunC10SM(*cases, *trace, *stats, *seed, *proj)
 	case "c12sm":
 		err = h.RunC12SM(*cases, *trace, *stats, *seed, *proj)
 	case "c07sm":
